@@ -2,6 +2,7 @@
 from ofxtools import Parser
 from sx.models.etree import make_treebuilder
 from sx.models.io import make_source
+from sx.instrument import optimized_copy
 from harness.render import sym_tree, render
 from harness.wire import SHAPES
 
@@ -9,9 +10,11 @@ PID = "C08"
 NAMES = ["A", "AB", "B"]          # one name contains the others: an end tag must equal the open tag, not resemble it
 
 
-def parse(ctx, text):
-    """the body parser as OFXTree.parse drives it: feed, then close; returns the root or None when it failed"""
-    tb = make_treebuilder(Parser.TreeBuilder, ctx.mode == "sym")
+def parse(ctx, text, noassert=False):
+    """the body parser as OFXTree.parse drives it: feed, then close; returns the root or None when it failed
+    (noassert: the module as `python -O` loads it - nothing the property states may rest on an assert statement)"""
+    P = optimized_copy(Parser) if noassert else Parser
+    tb = make_treebuilder(P.TreeBuilder, ctx.mode == "sym")
     try:
         tb.feed(text)
         return tb.close()
@@ -74,7 +77,7 @@ def ref_well_nested(ctx, toks):
     return seen_root and not stack
 
 
-def h_tokens(ctx, n):
+def h_tokens(ctx, n, noassert=False):
     toks = []
     text = ""
     for i in range(n):
@@ -94,7 +97,7 @@ def h_tokens(ctx, n):
     ok = ref_well_nested(ctx, toks)
     if not ok and ctx.known("C08-lenient-end-tags"):
         return
-    out = parse(ctx, text)
+    out = parse(ctx, text, noassert)
     ctx.observe("accepted", out is not None)
     ctx.check("a body whose aggregate tags are not properly nested and closed never yields a tree", ctx.implies(not ok, out is None))
     ctx.check("a properly nested body is accepted", ctx.implies(ok, out is not None))
@@ -182,6 +185,10 @@ def instances(tier, seed):
     full = tier != "quick"
     for n in ((1, 2, 3, 4) if not full else (1, 2, 3, 4, 5, 6)):
         out.append(dict(name=f"tokens[{n}]", harness="tokens", fn=h_tokens, params=dict(n=n),
+                        opts=dict(wall_s=600 if not full else 3000, max_paths=400000)))
+    # the interpreter run with -O / PYTHONOPTIMIZE: assert statements are compiled away
+    for n in ((3,) if not full else (3, 4, 5)):
+        out.append(dict(name=f"tokens[{n},python -O]", harness="tokens", fn=h_tokens, params=dict(n=n, noassert=True),
                         opts=dict(wall_s=600 if not full else 3000, max_paths=400000)))
     for sh in (["2", "3a", "3b"] if not full else list(SHAPES)):
         out.append(dict(name=f"truncate[{sh}]", harness="truncate", fn=h_truncate, params=dict(shape=sh, datalen=1 if not full else [1, 2]),
